@@ -29,6 +29,8 @@ struct Ctx {
 #[derive(Clone, Hash)]
 struct Model {
     advances: u8,
+    /// the dummy target's code was really replaced by dummy.wasm (version 0.2.0)
+    swapped: bool,
     owner: usize,
     window: bool,
     /// ledger-state hash observed with the window closed, per owner: upgrade + migrate must
@@ -152,14 +154,26 @@ impl Scenario for C15 {
         };
         (
             Ctx { w, target, upgrader, p, version, dummy_hash, is_dummy: c == 5 },
-            Model { advances: 0, owner: 0, window: false, closed_hash: [None, None] },
+            Model { advances: 0, swapped: false, owner: 0, window: false, closed_hash: [None, None] },
         )
     }
 
     fn actions(&self, ctx: &Ctx, m: &Model) -> Vec<Act> {
         let mut v = vec![];
+        if m.swapped {
+            // the target now runs the prebuilt artefact: only the Upgrader's own contract is
+            // asserted from here on (driving the same upgrade again must fail and change nothing)
+            for version in 0..3u8 {
+                for cover in [Cover::Both, Cover::UpgradeOnly, Cover::Nobody] {
+                    v.push(Act::Upgrader { version, cover, data: 0, real_code: true });
+                }
+            }
+            return v;
+        }
         if m.advances < 1 {
             v.push(Act::Advance(20));
+            // ~64 days: longer than any TTL a contract extends to, shorter than the minimum persistent TTL
+            v.push(Act::Advance(1_100_000));
         }
         for by in [Who::Owner, Who::Other, Who::Stranger, Who::Nobody] {
             v.push(Act::Upgrade { known_hash: true, by });
@@ -262,9 +276,10 @@ impl Scenario for C15 {
             }
             Act::Upgrader { version, cover, data, real_code } => {
                 out.kind = "upgrader";
+                let current = if m.swapped { "0.2.0".to_string() } else { ctx.version.clone() };
                 let new_reports = if *real_code { "0.2.0".to_string() } else { ctx.version.clone() };
                 let requested = match version {
-                    0 => ctx.version.clone(),
+                    0 => current.clone(),
                     1 => new_reports.clone(),
                     _ => "9.9.9".to_string(),
                 };
@@ -291,17 +306,23 @@ impl Scenario for C15 {
                 out.accepted = call.ok;
                 // complete success needs: requested version differs from the old one and equals what
                 // the new code reports, both steps authorised by the owner, well-typed data
-                let want = requested != ctx.version && requested == new_reports && *cover == Cover::Both && *data == 0;
+                let want = requested != current && requested == new_reports && *cover == Cover::Both && *data == 0;
                 out.expect(call.ok == want, "upgrader.outcome", || {
-                    format!("{:?} (requested {}, old {}, new code reports {}): ok={} ({}), model {}", a, requested, ctx.version, new_reports, call.ok, call.err, want)
+                    format!("{:?} (requested {}, old {}, new code reports {}): ok={} ({}), model {}", a, requested, current, new_reports, call.ok, call.err, want)
                 });
                 if call.ok {
                     let v1 = self.version_of(ctx);
                     out.expect(v1 == Some(sstr(&requested)) && Some(sstr(&requested)) != v0, "upgrader.ended-at-wrong-version", || {
                         format!("requested {}, before {:?}, after {:?}", requested, v0, v1)
                     });
-                    // after a real code swap the target is the prebuilt artefact: stop here
-                    out.prune = true;
+                    // after a real code swap the target is the prebuilt artefact
+                    if *real_code {
+                        m.swapped = true;
+                        m.window = false;
+                        m.closed_hash = [None, None];
+                    } else {
+                        out.prune = true;
+                    }
                 } else {
                     out.expect(h0 == w.state_hash(), "upgrader.failed-but-target-changed", || {
                         format!("{:?}: the target's code, version or data differ after a failed Upgrader call", a)
@@ -318,6 +339,10 @@ impl Scenario for C15 {
         let q = w.query(&ctx.target, "owner", &[]);
         out.expect(q == Some(w.sc_addr_val(&ctx.p[m.owner])), "probe.owner", || format!("{:?} vs {}", q, m.owner));
         let v = self.version_of(ctx);
+        if m.swapped {
+            out.expect(v == Some(sstr("0.2.0")), "probe.version", || format!("{:?} vs 0.2.0", v));
+            return;
+        }
         out.expect(v == Some(sstr(&ctx.version)), "probe.version", || format!("{:?} vs {}", v, ctx.version));
         // the migration window, observed by its effect: an owner-authorised migrate tried on a
         // snapshot succeeds iff the model says the window is open
